@@ -634,7 +634,10 @@ ApplyACreate(st, e) ==
                    \cup B(\E i \in opens : st.logrecs[i].id # e.logid \/ st.logrecs[i].parent # pid,
                           "C20", "Open record carries wrong id or parent")
               ELSE B(opens # {}, "C20", "Open record delivered although filtered out")
-  IN R([s2 EXCEPT !.logrecs = IF quiet THEN @ ELSE << >>, !.logids = @ \cup {e.logid}], lbad)
+      \* ids are handed out whether or not a logger is installed yet (judged in the C20 runs, which use logger builds)
+      ibad == B("C20" \in st.props /\ ~st.logOn /\ ~quiet /\ (e.logid = 0 \/ e.logid \in st.logids), "C20",
+                "actor LogID is zero or not fresh (created before a logger was installed)")
+  IN R([s2 EXCEPT !.logrecs = IF quiet THEN @ ELSE << >>, !.logids = @ \cup {e.logid}], lbad \cup ibad)
 
 ApplyDie(st, e, cause) ==
   IF ~Has(st.actors, e.aid) THEN R(st, {}) ELSE
@@ -973,6 +976,8 @@ Apply1(st, e) ==
     [] e.e = "argdrop" ->
          R([st EXCEPT !.argdrop = @ \cup {e.rid}],
            B(e.rid \in st.argdrop, "C16", "fixed argument of a Ret released twice"))
+    [] e.e = "filterparse" ->
+         R(st, B(~e.ok, "C20", "a LogFilter written as text does not give the filter built from the same levels"))
     [] e.e = "argswap" -> R(st, {<<"C02", "a call / forwarded message arrived with other arguments than it was made with">>,
                                    <<"C05", "a call / forwarded message arrived with other arguments than it was made with">>})
     [] e.e = "reenter" -> R(st, {<<"C03", "actor method re-entered">>})
@@ -1039,7 +1044,8 @@ Apply1(st, e) ==
              queueOps == {"defer", "lazy", "idle"}
              actorOps == {"acreate", "call", "apply", "query", "kill", "owndrop", "ownclone", "ownanon", "keepown", "unkeepown",
                           "mkret", "ret", "retdrop", "keepret", "mkfwd", "fwd", "refstorm", "stop", "fail"}
-             who == IF e.during \in timerOps THEN {"C08"}
+             who == IF e.during \in {"tupd", "tdel", "tact"} THEN {"C08", "C10"}     \* key operations: "stale / Default keys are inert"
+                    ELSE IF e.during \in timerOps THEN {"C08"}
                     ELSE IF e.during \in queueOps THEN st.props \cap {"C01", "C06", "C16", "C17", "C18"}
                     ELSE IF e.during \in actorOps THEN st.props \cap {"C02", "C03", "C04", "C05", "C16", "C18", "C20"}
                     ELSE st.props
